@@ -148,6 +148,50 @@ static void scenario(const std::string &scen, int run, Circuit base, const Coloq
         log(k + 1);
       }
     }
+    // The same circuit magnified by an integer K chosen so that net extents approach the int range: wirelength is homogeneous,
+    // hpwl(K c) = K hpwl(c) exactly, also where the half perimeter of one net no longer fits 32 bits.
+    {
+      // K as large as the int range allows: every coordinate, size and pin position of the magnified circuit fits an int and the
+      // extent of every net along each axis stays below 2^31, while the half perimeter of the widest net may exceed 2^31
+      long long maxAbs = 1, maxExt = 1;
+      for (int i = 0; i < base.nbCells(); ++i) {
+        maxAbs = std::max<long long>(maxAbs, std::llabs((long long)base.cellX_[i]) + base.cellWidth_[i] + base.cellHeight_[i]);
+        maxAbs = std::max<long long>(maxAbs, std::llabs((long long)base.cellY_[i]) + base.cellWidth_[i] + base.cellHeight_[i]);
+      }
+      for (int v : base.pinXOffsets_) maxAbs = std::max<long long>(maxAbs, std::llabs((long long)v));
+      for (int v : base.pinYOffsets_) maxAbs = std::max<long long>(maxAbs, std::llabs((long long)v));
+      for (int n = 0; n < base.nbNets(); ++n) {
+        long long x0 = 0, x1 = 0, y0 = 0, y1 = 0;
+        for (int j = 0; j < base.nbPinsNet(n); ++j) {
+          int cell = base.pinCell(n, j);
+          long long px = (long long)base.x(cell) + base.pinXOffset(n, j), py = (long long)base.y(cell) + base.pinYOffset(n, j);
+          maxAbs = std::max(maxAbs, std::max(std::llabs(px), std::llabs(py)));
+          if (j == 0) { x0 = x1 = px; y0 = y1 = py; }
+          x0 = std::min(x0, px); x1 = std::max(x1, px); y0 = std::min(y0, py); y1 = std::max(y1, py);
+        }
+        maxExt = std::max(maxExt, std::max(x1 - x0, y1 - y0));
+      }
+      long long K = std::min(((1LL << 31) - 1) / (maxAbs + 1), ((1LL << 31) - 1) / maxExt);
+      if (K >= 2) {
+        Circuit big = base;
+        for (int i = 0; i < big.nbCells(); ++i) {
+          big.cellX_[i] = (int)(big.cellX_[i] * K);
+          big.cellY_[i] = (int)(big.cellY_[i] * K);
+          big.cellWidth_[i] = (int)(big.cellWidth_[i] * K);
+          big.cellHeight_[i] = (int)(big.cellHeight_[i] * K);
+        }
+        for (int &v : big.pinXOffsets_) v = (int)(v * K);
+        for (int &v : big.pinYOffsets_) v = (int)(v * K);
+        long long wl = big.hpwl();
+        std::vector<int> allCells;
+        for (int i = 0; i < big.nbCells(); ++i) allCells.push_back(i);
+        long long vx = IncrNetModel::xTopology(big, allCells).value(), vy = IncrNetModel::yTopology(big, allCells).value();
+        Value e = vt::ev("HpwlScale");
+        e.set("run", run).set("K", K).set("circ", vp::circuitToJson(base));
+        e.set("q", wl / K).set("r", wl % K).set("qx", vx / K).set("rx", vx % K).set("qy", vy / K).set("ry", vy % K);
+        vt::emit(e);
+      }
+    }
   } else if (scen == "free") {
     // C15: free space of every row of the circuit against its fixed cells plus random extra obstacles
     vg::Rng r((uint64_t)run * 131 + 7);
